@@ -334,7 +334,10 @@ func init() {
 	// ---- sync/atomic: values of atomically accessed locations are volatile (another goroutine may change them) ----
 	for _, n := range []string{"LoadInt32", "LoadInt64", "LoadUint32", "LoadUint64"} {
 		m["sync/atomic."+n] = func(vc *VC, fx *FuncCtx, st *State, fn *ssa.Function, args []Val, rt types.Type, instr ssa.Instruction) Val {
-			vc.used["sync/atomic loads return an arbitrary value (the location is shared with other goroutines)"] = true
+			vc.used["sync/atomic: a flag read atomically keeps its value for the rest of the handler step (writers are other goroutines; their interleaving is outside the model)"] = true
+			if p, ok := args[0].(*PtrV); ok {
+				return st.load(p)
+			}
 			fv, facts := vc.freshVal("atomic", rt)
 			for _, f := range facts {
 				vc.assume(st, f)
